@@ -283,3 +283,21 @@ pub fn start_pair(d: &Deploy, tag: &str) -> Result<Pair, String> {
     wait_ready(&mut client, if ctcp { Some(d.client_port) } else { None }, if cudp { Some(d.client_port) } else { None }, Duration::from_secs(15))?;
     Ok(Pair { deploy: d.clone(), client, server })
 }
+
+/// Like `start_pair`, but the client is told to reach the server at `link_port` (a forwarder in front of the server).
+pub fn start_pair_via(d: &Deploy, tag: &str, link_port: u16) -> Result<Pair, String> {
+    let mut server = start_node("server", &d.server_json(), &d.dir, tag, d.workers, &d.log_level, None, None).map_err(|e| e.to_string())?;
+    let mode = d.server_mode_str();
+    let (stcp, sudp) = match d.cfg.proto {
+        Proto::Ss(_) => (mode == "tcp" || mode == "tcp_and_udp" || mode == "tcp_and_quic", mode == "udp" || mode == "tcp_and_udp" || mode == "quic" || mode == "tcp_and_quic"),
+        _ => (true, d.transport == Transport::Quic),
+    };
+    wait_ready(&mut server, if stcp { Some(d.server_port) } else { None }, if sudp { Some(d.server_port) } else { None }, Duration::from_secs(15))?;
+    let mut dc = d.clone();
+    dc.server_port = link_port;
+    let mut client = start_node("client", &dc.client_json(), &d.dir, tag, d.workers, &d.log_level, None, None).map_err(|e| e.to_string())?;
+    let ctcp = d.client_mode != "udp";
+    let cudp = d.client_mode != "tcp";
+    wait_ready(&mut client, if ctcp { Some(d.client_port) } else { None }, if cudp { Some(d.client_port) } else { None }, Duration::from_secs(15))?;
+    Ok(Pair { deploy: d.clone(), client, server })
+}
